@@ -222,6 +222,22 @@ def run(case):
         sva = np.asarray(a.gradient([Fp, sv0])[1], float)
         c.cmp("after-call/stress", "MORPH stress from a common non-virgin state, tensortrax vs jax", a.gradient([F, sva])[0], b.gradient([F, sva])[0], 1e-2, labels)
         c.trans += 7
+        # load histories with FIXED principal axes (for these L_G is symmetric and the two back ends agree closely -- the known
+        # finding concerns histories whose principal axes turn): each back end carries its own state through three steps of
+        # triaxial stretch, in the coordinate frame and in frames rotated about an axis and about the space diagonal
+        from scipy.spatial.transform import Rotation as _Rot
+
+        frames = {"axes": np.eye(3), "about-z": _Rot.from_rotvec([0, 0, 0.6]).as_matrix(), "about-y": _Rot.from_rotvec([0, 0.7, 0]).as_matrix(),
+                  "about-diagonal": _Rot.from_rotvec(0.8 * np.ones(3) / np.sqrt(3)).as_matrix(), "generic": zoo.generic_rotations(seed, 1)[0]}
+        steps = [np.array([1.3, 0.9, 0.85]), np.array([1.6, 0.8, 0.78]), np.array([1.15, 0.95, 0.92])]
+        for flab, R_ in frames.items():
+            sva_, svb_ = np.zeros((13, 1, 1)), np.zeros((13, 1, 1))
+            for k_, lam_ in enumerate(steps):
+                Fk = (R_ @ np.diag(lam_) @ R_.T).reshape(3, 3, 1, 1)
+                (Pa_, sva2_), (Pb_, svb2_) = a.gradient([Fk, sva_]), b.gradient([Fk, svb_])
+                c.trans += 2
+                c.cmp(f"coaxial-history/{flab}/step{k_}/stress", "MORPH stress along a history with fixed principal axes, each back end with its own state", Pa_, Pb_, 2e-3)
+                sva_, svb_ = np.asarray(sva2_, float), np.asarray(svb2_, float)
         return c.result(dict(case=case["key"], lattice_points=n))
     if kind == "morph-rd-history":
         # stateful twins driven through every load history without repeated amplitude ({0.4, 1.0, 0.7}, length <= 3) with their own state
